@@ -1,6 +1,7 @@
 import ElvModel.Go.Driver
 import ElvModel.C33.Model
 import ElvModel.C33.Styledown
+import ElvModel.C33.History
 namespace C33
 open Go
 
@@ -148,5 +149,77 @@ def stepLine : List String → String
     | _, _ => "bad-op"
   | _ => "bad-op"
 
-def driver : Driver := Driver.pure stepLine
+/-! ### histories over named values (`reset`, then `h <op> …` lines; operands `$i` = value number `i`) -/
+
+def parseRef (s : String) : Option Ref :=
+  if s.startsWith "$" then (String.ofList (s.toList.drop 1)).toNat?.map .reg else (parseText s).map .lit
+
+def parseSegRef (s : String) : Option SegRef :=
+  if s.startsWith "$" then
+    match (String.ofList (s.toList.drop 1)).splitOn "." with
+    | [i, j] => match i.toNat?, j.toNat? with
+      | some i, some j => some (.reg i j)
+      | _, _ => none
+    | _ => none
+  else (parseSegment s).map .lit
+
+def parseHRhs (kind arg : String) : Option HRhs :=
+  match kind with
+  | "s" => (hexDecode arg).map .str
+  | "g" => (parseSegRef arg).map .seg
+  | "t" => (parseRef arg).map .text
+  | _ => none
+
+def parseHOp : List String → Option HOp
+  | ["lit", t] => (parseText t).map .lit
+  | ["concat", ts] => ((ts.splitOn "|").mapM parseRef).map .concat
+  | ["partition", t, idx] => match parseRef t, (if idx = "-" then some [] else (idx.splitOn ",").mapM String.toInt?) with
+    | some t, some idx => some (.partition t idx)
+    | _, _ => none
+  | ["split", t, r] => match parseRef t, r.toInt? with
+    | some t, some r => some (.split t r)
+    | _, _ => none
+  | ["trimw", t, w] => match parseRef t, w.toInt? with
+    | some t, some w => some (.trimw t w)
+    | _, _ => none
+  | ["styletext", t, sts] => match parseRef t, parseStylings sts with
+    | some t, some ts => some (.styletext t ts)
+    | _, _ => none
+  | ["clone", t] => (parseRef t).map .clone
+  | ["sub", t, lo, hi] => match parseRef t, lo.toNat?, hi.toNat? with
+    | some t, some lo, some hi => some (.sub t lo hi)
+    | _, _, _ => none
+  | ["textconcat", t, kind, arg] => match parseRef t, parseHRhs kind arg with
+    | some t, some r => some (.textconcat t r)
+    | _, _ => none
+  | ["rtextconcat", t, h] => match parseRef t, hexDecode h with
+    | some t, some l => some (.rtextconcat t l)
+    | _, _ => none
+  | ["segconcat", s, kind, arg] => match parseSegRef s, parseHRhs kind arg with
+    | some s, some r => some (.segconcat s r)
+    | _, _ => none
+  | ["rsegconcat", s, h] => match parseSegRef s, hexDecode h with
+    | some s, some l => some (.rsegconcat s l)
+    | _, _ => none
+  | ["tbwrite", t] => (parseRef t).map .tbwrite
+  | ["tbtext"] => some .tbtext
+  | ["tbreset"] => some .tbreset
+  | _ => none
+
+def showHOut : HOut → String
+  | .one t => showText t
+  | .many ts => showTexts ts
+  | .nothing => "none"
+  | .unit => "ok"
+  | .err => "err"
+  | .badRef => "bad-ref"
+
+def stepState (s : HState) : List String → HState × String
+  | ["reset"] => ({}, "ok")
+  | "h" :: rest => match parseHOp rest with
+    | some op => let r := s.step wd0 op; (r.1, showHOut r.2)
+    | none => (s, "bad-op")
+  | l => (s, stepLine l)
+
+def driver : Driver := { σ := HState, init := {}, step := stepState }
 end C33
